@@ -291,6 +291,19 @@ def solver_session(tr, path, na, twopl, opts, ops, backend_cfg, clock,
                 clock.advance(kw.get('seconds', 10 ** idle_rng.uniform(-3, 3)))
                 log('idle', (clock.t,))
                 continue
+            if name == 'clobber':
+                # the environment changes under the object: the instance
+                # file is deleted or overwritten after construction
+                try:
+                    if kw.get('mode') == 'delete':
+                        os.remove(path)
+                    else:
+                        with open(path, 'w') as f:
+                            f.write(kw.get('text', ''))
+                except OSError:
+                    pass
+                log('env.clobber', (kw.get('mode'),))
+                continue
             if name == 'intruder':
                 # another Solver object, on another instance, constructed,
                 # solved and queried in between: objects must not share state
@@ -444,6 +457,7 @@ def run_gen(sc, prefer=None, xcheck=None, wall_cap=None, keep_sets=True):
     os.environ['TMPDIR'] = d
     out_rel = sc.get('out_rel', 'out')
     outdir = os.path.join(d, out_rel)
+    old_cwd = None
     # observation-only spy on the tie writer, as bound in each generator module
     patched = []
     real_csp = generator_shared.create_string_pref
@@ -469,6 +483,15 @@ def run_gen(sc, prefer=None, xcheck=None, wall_cap=None, keep_sets=True):
     try:
         if sc.get('precreate_out') and sc.get('expect') != 'reject':
             os.makedirs(outdir, exist_ok=True)
+            for k in range(int(sc.get('stale_files') or 0)):
+                # files left over from an earlier, larger run
+                with open(os.path.join(outdir, '%d.txt' % k), 'w') as f:
+                    f.write('9 9\n' + ''.join(
+                        '%d: 1 2 3 4 5 6 7 8 9\n' % (i + 1)
+                        for i in range(60)) + 'stale tail\n' * 20)
+        if sc.get('rel_out') and not sc.get('drop_o'):
+            old_cwd = os.getcwd()
+            os.chdir(d)
         a, b = sc['rng']
         random.seed(a)
         numpy.random.seed(b)
@@ -476,6 +499,8 @@ def run_gen(sc, prefer=None, xcheck=None, wall_cap=None, keep_sets=True):
         base_argv = list(sc['gargv']) if sc.get('gargv') is not None \
             else scenarios.gen_argv(sc['params'])
         gargv = base_argv + ['-o', outdir]
+        if sc.get('rel_out'):
+            gargv = base_argv + ['-o', out_rel]     # bare relative name
         if sc.get('drop_o'):
             gargv = list(base_argv)
         world.spy_start(d, _spy_sink(tr, log))
@@ -544,6 +569,8 @@ def run_gen(sc, prefer=None, xcheck=None, wall_cap=None, keep_sets=True):
     finally:
         for modp in patched:
             modp.create_string_pref = real_csp
+        if old_cwd is not None:
+            os.chdir(old_cwd)
         world.spy_stop()
         if old_tmp is None:
             os.environ.pop('TMPDIR', None)
